@@ -212,5 +212,18 @@ PROPS["C20"] = dict(
     assumptions=["hook kxps/export_verif.go calls the same doSample/sampleAverage the timer goroutine and Average() call"],
 )
 
+PROPS["C16"] = dict(
+    pkg="c16", level="exploration",
+    rule="the full algorithm matrices (12 signature algorithms x fixture keys; 14 key-management x 6 content-encryption x 2 compression x serialisations x AAD) enumerated with rotating payload sizes; per object: "
+         "round trip, wrong key must fail, single-bit flips of every serialised field must fail; rapid-generated objects with drawn sizes/positions; multi-recipient/-signature objects; JWK round trip and RFC 7638 "
+         "thumbprint computed independently; ACME helpers through the verif hook; evaluations = verify/decrypt attempts; per-check rules under coverage.checks",
+    quick=dict(timeout=1200), thorough=dict(shards=16, timeout=3000),
+    technique="exhaustive enumeration of the algorithm matrix + property-based testing (rapid): round trip and tamper-must-fail metamorphic oracle on the serialised fields; independent RFC 7638 thumbprint",
+    level_text="The algorithm/serialisation matrix is enumerated completely; payload sizes rotate over the boundary set; bit positions are first/last/drawn in the quick tier and every bit of small objects in the thorough tier.",
+    level_note="Functional accept/reject behaviour only (no claim on cryptographic strength). Fixture keys in /verif/fixtures/keys.json include EC keys with leading-zero coordinates on every curve. "
+               "AAD is only used with the JSON serialisation; oct keys have no thumbprint; flips are applied to decoded bytes (not to base64 text).",
+    assumptions=["crypto/rand inside the library only affects ciphertext bits, not verdicts", "RFC 7638 canonical form as coded in refThumbprint"],
+)
+
 NOT_APPLICABLE = {}
-HOOK_COMMITS = ["ba4d95f68dd5a0290f21f6bb6c969f905e9412da"]
+HOOK_COMMITS = ["ba4d95f68dd5a0290f21f6bb6c969f905e9412da", "a27187fa8bc3d23076469a07766dcee96b1efc22"]
